@@ -19,11 +19,19 @@ inductive PE
   | atom (c : Token) (x : Expr)
   | bin (o lp rp : Token) (l r : PE)
   | pre (o : Token) (r : PE)
+  | idx (lb rb : Token) (l i : PE)
+
+/-- what an index can be applied to without parentheses: an atom or another index (`a[i][j]`) -/
+def PE.isPost : PE → Bool
+  | .atom _ _ => true
+  | .idx _ _ _ _ => true
+  | _ => false
 
 def PE.toExpr : PE → Expr
   | .atom _ x => x
   | .bin o _ _ l r => .inf o o.lit (some l.toExpr) (some r.toExpr)
   | .pre o r => .pre o o.lit (some r.toExpr)
+  | .idx lb _ l i => .idx lb (some l.toExpr) (some i.toExpr) none none
 
 /-- well-formed: atoms are atoms, operators are registered binary operators, parentheses are parentheses -/
 def PE.WF : PE → Prop
@@ -32,6 +40,7 @@ def PE.WF : PE → Prop
       lookupLast o.type Gen.infixFns = some .parseInfixExpression ∧ Gen.LOWEST < precOf o.type ∧
       lp.type = .LPAREN ∧ rp.type = .RPAREN ∧ l.WF ∧ r.WF
   | .pre o r => lookupLast o.type Gen.prefixFns = some .parsePrefixExpression ∧ r.WF
+  | .idx lb rb l i => lb.type = .LBRACKET ∧ rb.type = .RBRACKET ∧ l.isPost = true ∧ l.WF ∧ i.WF
 
 /-- printing with the minimal parentheses for a context of binding power `p`:
     left operands at the operator's own level (left associative), right operands one level tighter -/
@@ -41,12 +50,14 @@ def pr (p : Nat) : PE → List Token
     let body := pr (precOf o.type) l ++ [o] ++ pr (precOf o.type + 1) r
     if precOf o.type < p then [lp] ++ body ++ [rp] else body
   | .pre o r => o :: pr (Gen.PREFIX + 1) r
+  | .idx lb rb l i => pr Gen.INDEX l ++ [lb] ++ pr (Gen.LOWEST + 1) i ++ [rb]
 
 theorem pr_ne_nil (p : Nat) (e : PE) : pr p e ≠ [] := by
   cases e with
   | atom => simp [pr]
   | bin o lp rp l r => simp only [pr]; split <;> simp
   | pre o r => simp [pr]
+  | idx lb rb l i => simp [pr]
 
 /-- the token array holds `ts` from index `i` on -/
 def At (s : PS) (i : Nat) (ts : List Token) : Prop := ∀ k (h : k < ts.length), tokAt s (i + k) = ts[k]
@@ -141,6 +152,30 @@ theorem prefix_step (f q : Nat) (s : PS) (Q : Option Expr → PS → Prop)
   simp only [OK_bind, OK_cur, hl, OK_ite, hfn, runPrefix_eq, OK_nextTok, OK_pure, Bool.false_eq_true, if_false]
   exact h
 
+/-- one turn of the operator loop at `[`: the index is parsed at LOWEST binding power, `]` is expected, and — when
+    neither `.` nor `=` follows — the index node is handed back to the operator loop -/
+theorem index_step (f q : Nat) (l : Expr) (s : PS) (Q : Option Expr → PS → Prop)
+    (hlb : (tokAt s (s.pos + 1)).type = .LBRACKET) (hq : q < Gen.INDEX)
+    (h : OK (parseExpression f Gen.LOWEST) { s with pos := s.pos + 1 + 1 } (fun r s' =>
+          ((tokAt s' (s'.pos + 1)).type == TT.RBRACKET) = true ∧
+          ((tokAt s' (s'.pos + 1 + 1)).type == TT.DOT) = false ∧
+          ((tokAt s' (s'.pos + 1 + 1)).type == TT.ASSIGN) = false ∧
+          OK (infixLoop (f+1) q (some (.idx (tokAt s (s.pos + 1)) (some l) r none none))) { s' with pos := s'.pos + 1 } Q)) :
+    OK (infixLoop (f+2) q (some l)) s Q := by
+  rw [infixLoop_eq]
+  have hsemi : ((tokAt s (s.pos + 1)).type == TT.SEMICOLON) = false := by rw [hlb]; decide
+  have hfn : lookupLast (tokAt s (s.pos + 1)).type Gen.infixFns = some .parseIndexExpression := by rw [hlb]; decide
+  have hprec : precOf (tokAt s (s.pos + 1)).type = Gen.INDEX := by rw [hlb]; decide
+  simp only [OK_bind, OK_peekIs, OK_peekPrecedence, OK_ite, OK_pure, OK_peek, hsemi, hfn, OK_nextTok, runInfix_eq, OK_cur,
+    hprec]
+  simp only [Bool.not_false, Bool.true_and, decide_eq_true_eq, hq, if_true]
+  refine OK_conseq h ?_
+  intro r s' ⟨h1, h2, h3, h4⟩
+  have h2' : ((tokAt { s' with pos := s'.pos + 1 } (s'.pos + 1 + 1)).type == TT.DOT) = false := h2
+  have h3' : ((tokAt { s' with pos := s'.pos + 1 } (s'.pos + 1 + 1)).type == TT.ASSIGN) = false := h3
+  simp only [OK_expectPeek, h1, if_true, Bool.not_true, Bool.false_eq_true, if_false, OK_bind, OK_peekIs, OK_ite, OK_pure, h2', h3']
+  exact h4
+
 /-- the state `s` with the cursor at index `i` -/
 def _root_.Plush.PS.at (s : PS) (i : Nat) : PS := { s with pos := i }
 
@@ -153,34 +188,49 @@ theorem rem_at (s : PS) (i : Nat) : rem (s.at i) = s.toks.size - i := rfl
 
 def edge (p : Nat) : PE → Token → Prop
   | .atom _ _, nt => nt.type ≠ .ASSIGN
-  | .bin o _ _ _ _, nt => if precOf o.type < p then True else (precOf nt.type ≤ precOf o.type ∧ nt.type ≠ .ASSIGN)
+  | .bin o _ _ _ _, nt => if precOf o.type < p then True else (precOf nt.type ≤ precOf o.type ∧ nt.type ≠ .ASSIGN ∧ nt.type ≠ .DOT)
   | .pre _ r, nt => precOf nt.type ≤ Gen.PREFIX ∧ edge (Gen.PREFIX + 1) r nt
+  | .idx _ _ _ _, nt => nt.type ≠ .ASSIGN ∧ nt.type ≠ .DOT
 
 /-- every registered binary operator binds less tightly than a prefix operator -/
 theorem infix_prec_le {t : TT} (h : lookupLast t Gen.infixFns = some .parseInfixExpression) : precOf t ≤ Gen.PREFIX := by
   revert h; cases t <;> decide
 
+theorem infix_ne_dot {t : TT} (h : lookupLast t Gen.infixFns = some .parseInfixExpression) : t ≠ .DOT := by
+  intro h0; subst h0; revert h; decide
+
 theorem infix_ne_assign {t : TT} (h : lookupLast t Gen.infixFns = some .parseInfixExpression) : t ≠ .ASSIGN := by
   intro h0; subst h0; revert h; decide
 
 /-- what the token that follows a sub-expression must satisfy, derived from: it does not bind tighter than `b`
-    (`b` ≤ PREFIX) and is not `=` -/
+    (`b` ≤ PREFIX) and is neither `=` nor `.` -/
 theorem edge_of_le (e : PE) : ∀ (p b : Nat) (nt : Token), e.WF → b ≤ Gen.PREFIX → precOf nt.type ≤ b → nt.type ≠ .ASSIGN →
+    nt.type ≠ .DOT →
     (∀ o lp rp l r, e = .bin o lp rp l r → ¬ precOf o.type < p → b ≤ precOf o.type) → edge p e nt := by
   induction e with
-  | atom c x => intro p b nt _ _ _ hna _; exact hna
+  | atom c x => intro p b nt _ _ _ hna _ _; exact hna
   | bin o lp rp l r _ _ =>
-    intro p b nt _ _ hle hna hb
+    intro p b nt _ _ hle hna hnd hb
     simp only [edge]; split
     · trivial
-    · rename_i hp; exact ⟨Nat.le_trans hle (hb o lp rp l r rfl hp), hna⟩
+    · rename_i hp; exact ⟨Nat.le_trans hle (hb o lp rp l r rfl hp), hna, hnd⟩
   | pre o r ih =>
-    intro p b nt hwf hbP hle hna _
-    refine ⟨Nat.le_trans hle hbP, ih (Gen.PREFIX + 1) b nt hwf.2 hbP hle hna ?_⟩
+    intro p b nt hwf hbP hle hna hnd _
+    refine ⟨Nat.le_trans hle hbP, ih (Gen.PREFIX + 1) b nt hwf.2 hbP hle hna hnd ?_⟩
     intro o2 lp2 rp2 l2 r2 he hnp
     subst he
     have := infix_prec_le hwf.2.1
     omega
+  | idx lb rb l i _ _ => intro p b nt _ _ _ hna hnd _; exact ⟨hna, hnd⟩
+
+/-- after an operand an index may be applied to, any token other than `=` and `.` may follow -/
+theorem edge_post (e : PE) (p : Nat) (nt : Token) (h : e.isPost = true) (hna : nt.type ≠ .ASSIGN) (hnd : nt.type ≠ .DOT) :
+    edge p e nt := by
+  cases e with
+  | atom c x => exact hna
+  | idx lb rb l i => exact ⟨hna, hnd⟩
+  | bin => cases h
+  | pre => cases h
 
 theorem atomOf_ne_eof {c : Token} {x : Expr} (h : atomOf c = some x) : c.type ≠ .EOF := by
   intro h0; unfold atomOf at h; rw [h0] at h; cases h
@@ -212,6 +262,15 @@ theorem pr_types (e : PE) : ∀ p, e.WF → ∀ t ∈ pr p e, t.type ≠ .EOF :=
     rcases ht with h1 | h1
     · subst h1; exact prefix_ne_eof h.1
     · exact ih _ h.2 t h1
+  | idx lb rb l i ihl ihi =>
+    intro p h t ht
+    obtain ⟨hlb, hrb, _, hl, hi⟩ := h
+    simp only [pr, List.mem_append, List.mem_singleton] at ht
+    rcases ht with ((h1 | h1) | h1) | h1
+    · exact ihl _ hl t h1
+    · subst h1; rw [hlb]; decide
+    · exact ihi _ hi t h1
+    · subst h1; rw [hrb]; decide
 
 theorem At_in_range {s : PS} (e : EofOK s) {i : Nat} {ts : List Token} (h : At s i ts)
     (hne : ∀ t ∈ ts, t.type ≠ .EOF) (hnil : ts ≠ []) : i + ts.length ≤ s.toks.size := by
@@ -240,11 +299,11 @@ def Kont (s : PS) (n q : Nat) (x : Expr) (Q : Option Expr → PS → Prop) : Pro
   ∀ f1, 12 + C * rem (s.at (s.pos + n - 1)) ≤ f1 → OK (infixLoop f1 q (some x)) (s.at (s.pos + n - 1)) Q
 
 theorem main (e : PE) : ∀ (q p : Nat) (s : PS) (f : Nat) (Q : Option Expr → PS → Prop),
-    e.WF → q < p → EofOK s → At s s.pos (pr p e) → edge p e (tokAt s (s.pos + (pr p e).length)) →
+    e.WF → q < p → q ≤ Gen.PREFIX → EofOK s → At s s.pos (pr p e) → edge p e (tokAt s (s.pos + (pr p e).length)) →
     14 + C * rem s ≤ f → Kont s (pr p e).length q e.toExpr Q → OK (parseExpression f q) s Q := by
   induction e with
   | atom c x =>
-    intro q p s f Q hwf hqp eo hat hedge hf K
+    intro q p s f Q hwf hqp hqP eo hat hedge hf K
     obtain ⟨f', rfl⟩ : ∃ f', f = f' + 2 := ⟨f - 2, by simp only [C] at hf; omega⟩
     have h0 := hat 0 (by simp [pr])
     simp only [pr, List.getElem_cons_zero, Nat.add_zero] at h0
@@ -258,14 +317,15 @@ theorem main (e : PE) : ∀ (q p : Nat) (s : PS) (f : Nat) (Q : Option Expr → 
     intro q0 p s0 f0 Q0 hwf
     obtain ⟨hfn, hlow, hlp, hrp, hwl, hwr⟩ := hwf
     -- the unparenthesised body  l o r
-    have body : ∀ (q : Nat) (s : PS) (f : Nat) (Q : Option Expr → PS → Prop), q < precOf o.type → EofOK s →
+    have body : ∀ (q : Nat) (s : PS) (f : Nat) (Q : Option Expr → PS → Prop), q < precOf o.type → q ≤ Gen.PREFIX → EofOK s →
         At s s.pos (pr (precOf o.type) l ++ [o] ++ pr (precOf o.type + 1) r) →
         (precOf (tokAt s (s.pos + (pr (precOf o.type) l ++ [o] ++ pr (precOf o.type + 1) r).length)).type ≤ precOf o.type ∧
-          (tokAt s (s.pos + (pr (precOf o.type) l ++ [o] ++ pr (precOf o.type + 1) r).length)).type ≠ .ASSIGN) →
+          (tokAt s (s.pos + (pr (precOf o.type) l ++ [o] ++ pr (precOf o.type + 1) r).length)).type ≠ .ASSIGN ∧
+          (tokAt s (s.pos + (pr (precOf o.type) l ++ [o] ++ pr (precOf o.type + 1) r).length)).type ≠ .DOT) →
         14 + C * rem s ≤ f →
         Kont s (pr (precOf o.type) l ++ [o] ++ pr (precOf o.type + 1) r).length q (PE.bin o lp rp l r).toExpr Q →
         OK (parseExpression f q) s Q := by
-      intro q s f Q hq eo hat hnt hf K
+      intro q s f Q hq hqP eo hat hnt hf K
       have Ll := pr_len_pos (precOf o.type) l
       have Lr := pr_len_pos (precOf o.type + 1) r
       have hrange := At_in_range eo hat (by
@@ -283,7 +343,7 @@ theorem main (e : PE) : ∀ (q p : Nat) (s : PS) (f : Nat) (Q : Option Expr → 
       have hatr : At s (s.pos + (pr (precOf o.type) l).length + 1) (pr (precOf o.type + 1) r) := by
         have := At_append_right hat
         simpa [Nat.add_assoc] using this
-      apply ihl q (precOf o.type) s f Q hwl hq eo hatl ?_ hf
+      apply ihl q (precOf o.type) s f Q hwl hq hqP eo hatl ?_ hf
       · -- continuation after l: the loop sees `o`
         intro f1 hf1
         rw [rem_at] at hf1
@@ -298,13 +358,13 @@ theorem main (e : PE) : ∀ (q p : Nat) (s : PS) (f : Nat) (Q : Option Expr → 
         · rw [hpk]
           show OK (parseExpression g (precOf o.type)) (s.at (s.pos + (pr (precOf o.type) l).length - 1 + 1 + 1)) _
           rw [show s.pos + (pr (precOf o.type) l).length - 1 + 1 + 1 = s.pos + (pr (precOf o.type) l).length + 1 by omega]
-          apply ihr (precOf o.type) (precOf o.type + 1) (s.at (s.pos + (pr (precOf o.type) l).length + 1)) g _ hwr (by omega) (show EofOK (s.at _) from eo)
+          apply ihr (precOf o.type) (precOf o.type + 1) (s.at (s.pos + (pr (precOf o.type) l).length + 1)) g _ hwr (by omega) (infix_prec_le hfn) (show EofOK (s.at _) from eo)
           · exact hatr
           · -- edge for r
             simp only [at_pos, tokAt_at]
             rw [show s.pos + (pr (precOf o.type) l).length + 1 + (pr (precOf o.type + 1) r).length
                   = s.pos + ((pr (precOf o.type) l).length + 1 + (pr (precOf o.type + 1) r).length) by omega]
-            exact edge_of_le r _ (precOf o.type) _ hwr (infix_prec_le hfn) hnt.1 hnt.2 (fun o2 _ _ _ _ _ hnp => by omega)
+            exact edge_of_le r _ (precOf o.type) _ hwr (infix_prec_le hfn) hnt.1 hnt.2.1 hnt.2.2 (fun o2 _ _ _ _ _ hnp => by omega)
           · rw [rem_at]; simp only [C] at hf1 ⊢; omega
           · -- continuation after r: the loop stops, the node is built, the outer loop goes on
             intro f2 hf2
@@ -322,8 +382,8 @@ theorem main (e : PE) : ∀ (q p : Nat) (s : PS) (f : Nat) (Q : Option Expr → 
               exact this
       · -- edge for l: the next token is `o`
         rw [hato]
-        exact edge_of_le l _ (precOf o.type) _ hwl (infix_prec_le hfn) (Nat.le_refl _) (infix_ne_assign hfn) (fun o1 _ _ _ _ _ hnp => by omega)
-    intro hqp eo hat hedge hf K
+        exact edge_of_le l _ (precOf o.type) _ hwl (infix_prec_le hfn) (Nat.le_refl _) (infix_ne_assign hfn) (infix_ne_dot hfn) (fun o1 _ _ _ _ _ hnp => by omega)
+    intro hqp hqP eo hat hedge hf K
     by_cases hp : precOf o.type < p
     · -- parenthesised:  lp  l o r  rp
       simp only [pr, if_pos hp] at hat K hedge
@@ -345,11 +405,11 @@ theorem main (e : PE) : ∀ (q p : Nat) (s : PS) (f : Nat) (Q : Option Expr → 
       apply paren_step
       · rw [hat0]; exact hlp
       · show OK (parseExpression f' Gen.LOWEST) (s0.at (s0.pos + 1)) _
-        apply body Gen.LOWEST (s0.at (s0.pos + 1)) f' _ hlow (show EofOK (s0.at _) from eo) hbody
+        apply body Gen.LOWEST (s0.at (s0.pos + 1)) f' _ hlow (by decide) (show EofOK (s0.at _) from eo) hbody
         · simp only [at_pos, tokAt_at]
           rw [hrpt, hrp]
           have hlo : precOf TT.RPAREN = Gen.LOWEST := by decide
-          exact ⟨by rw [hlo]; omega, by decide⟩
+          exact ⟨by rw [hlo]; omega, by decide, by decide⟩
         · rw [rem_at]; simp only [rem, C] at hf ⊢; omega
         · intro f1 hf1
           simp only [at_pos, at_at] at hf1 ⊢
@@ -375,9 +435,9 @@ theorem main (e : PE) : ∀ (q p : Nat) (s : PS) (f : Nat) (Q : Option Expr → 
     · -- bare
       simp only [pr, if_neg hp] at hat K hedge
       simp only [edge, if_neg hp] at hedge
-      exact body q0 s0 f0 Q0 (by omega) eo hat hedge hf K
+      exact body q0 s0 f0 Q0 (by omega) hqP eo hat hedge hf K
   | pre o r ih =>
-    intro q p s f Q hwf hqp eo hat hedge hf K
+    intro q p s f Q hwf hqp hqP eo hat hedge hf K
     obtain ⟨hfn, hwr⟩ := hwf
     simp only [pr] at hat K
     simp only [pr, edge] at hedge
@@ -400,7 +460,7 @@ theorem main (e : PE) : ∀ (q p : Nat) (s : PS) (f : Nat) (Q : Option Expr → 
     · rw [hat0]; exact hfn
     · rw [hat0]
       show OK (parseExpression f' Gen.PREFIX) (s.at (s.pos + 1)) _
-      apply ih Gen.PREFIX (Gen.PREFIX + 1) (s.at (s.pos + 1)) f' _ hwr (by omega) (show EofOK (s.at _) from eo) hatr
+      apply ih Gen.PREFIX (Gen.PREFIX + 1) (s.at (s.pos + 1)) f' _ hwr (by omega) (Nat.le_refl _) (show EofOK (s.at _) from eo) hatr
       · simp only [at_pos, tokAt_at]
         rw [show s.pos + 1 + (pr (Gen.PREFIX + 1) r).length = s.pos + ((pr (Gen.PREFIX + 1) r).length + 1) by omega]
         exact hedge.2
@@ -417,6 +477,89 @@ theorem main (e : PE) : ∀ (q p : Nat) (s : PS) (f : Nat) (Q : Option Expr → 
           rw [show s.pos + ((pr (Gen.PREFIX + 1) r).length + 1) - 1 = s.pos + 1 + (pr (Gen.PREFIX + 1) r).length - 1 by omega] at this
           exact this
 
+  | idx lb rb l i ihl ihi =>
+    intro q p s f Q hwf hqp hqP eo hat hedge hf K
+    obtain ⟨hlb, hrb, hpost, hwl, hwi⟩ := hwf
+    simp only [pr] at hat K
+    simp only [pr, edge] at hedge
+    have Ll := pr_len_pos Gen.INDEX l
+    have Li := pr_len_pos (Gen.LOWEST + 1) i
+    have hrange := At_in_range eo hat (by
+        intro t ht
+        exact pr_types (PE.idx lb rb l i) p ⟨hlb, hrb, hpost, hwl, hwi⟩ t (by simpa only [pr] using ht)) (by simp)
+    simp only [List.length_append, List.length_singleton, List.length_cons, List.length_nil] at hrange K hedge
+    have hatl : At s s.pos (pr Gen.INDEX l) := At_append_left (At_append_left (At_append_left hat))
+    have hatlb : tokAt s (s.pos + (pr Gen.INDEX l).length) = lb := by
+      have := At_append_right (At_append_left (At_append_left hat)) 0 (by simp)
+      simpa using this
+    have hati : At s (s.pos + (pr Gen.INDEX l).length + 1) (pr (Gen.LOWEST + 1) i) := by
+      have := At_append_right (At_append_left hat)
+      simpa [Nat.add_assoc] using this
+    have hatrb : tokAt s (s.pos + (pr Gen.INDEX l).length + 1 + (pr (Gen.LOWEST + 1) i).length) = rb := by
+      have := At_append_right hat 0 (by simp)
+      simp only [List.length_append, List.length_singleton, List.length_cons, List.length_nil, List.getElem_cons_zero,
+        Nat.add_zero] at this
+      rw [← this]; congr 1; omega
+    have hQI : q < Gen.INDEX := by have : Gen.PREFIX < Gen.INDEX := by decide
+                                   omega
+    apply ihl q Gen.INDEX s f Q hwl hQI hqP eo hatl ?_ hf
+    · -- continuation after l: the loop sees `[`
+      intro f1 hf1
+      rw [rem_at] at hf1
+      obtain ⟨g, rfl⟩ : ∃ g, f1 = g + 2 := ⟨f1 - 2, by simp only [C] at hf1; omega⟩
+      have hpk : tokAt (s.at (s.pos + (pr Gen.INDEX l).length - 1)) ((s.at (s.pos + (pr Gen.INDEX l).length - 1)).pos + 1) = lb := by
+        simp only [tokAt_at, at_pos]
+        rw [show s.pos + (pr Gen.INDEX l).length - 1 + 1 = s.pos + (pr Gen.INDEX l).length by omega]
+        exact hatlb
+      apply index_step
+      · rw [hpk]; exact hlb
+      · exact hQI
+      · rw [hpk]
+        show OK (parseExpression g Gen.LOWEST) (s.at (s.pos + (pr Gen.INDEX l).length - 1 + 1 + 1)) _
+        rw [show s.pos + (pr Gen.INDEX l).length - 1 + 1 + 1 = s.pos + (pr Gen.INDEX l).length + 1 by omega]
+        apply ihi Gen.LOWEST (Gen.LOWEST + 1) (s.at (s.pos + (pr Gen.INDEX l).length + 1)) g _ hwi (by omega) (by decide)
+          (show EofOK (s.at _) from eo)
+        · exact hati
+        · -- edge for i: the next token is `]`
+          simp only [at_pos, tokAt_at]
+          rw [hatrb]
+          exact edge_of_le i _ Gen.LOWEST _ hwi (by decide) (by rw [hrb]; decide) (by rw [hrb]; decide) (by rw [hrb]; decide)
+            (fun o2 _ _ _ _ _ hnp => by omega)
+        · rw [rem_at]; simp only [C] at hf1 ⊢; omega
+        · -- continuation after i: the loop stops at `]`, the node is built, the outer loop goes on
+          intro f2 hf2
+          simp only [at_pos, at_at] at hf2 ⊢
+          rw [rem_at] at hf2
+          obtain ⟨h2, rfl⟩ : ∃ h2, f2 = h2 + 1 := ⟨f2 - 1, by simp only [C] at hf2; omega⟩
+          have hpk2 : s.pos + (pr Gen.INDEX l).length + 1 + (pr (Gen.LOWEST + 1) i).length - 1 + 1
+              = s.pos + (pr Gen.INDEX l).length + 1 + (pr (Gen.LOWEST + 1) i).length := by omega
+          apply loop_stops
+          · simp only [tokAt_at, at_pos]
+            rw [hpk2, hatrb, hrb]; decide
+          · refine ⟨?_, ?_, ?_, ?_⟩
+            · simp only [tokAt_at, at_pos]
+              rw [hpk2, hatrb, hrb]; rfl
+            · simp only [tokAt_at, at_pos]
+              rw [hpk2]
+              rw [show s.pos + (pr Gen.INDEX l).length + 1 + (pr (Gen.LOWEST + 1) i).length + 1
+                    = s.pos + ((pr Gen.INDEX l).length + 1 + (pr (Gen.LOWEST + 1) i).length + 1) by omega]
+              simpa using hedge.2
+            · simp only [tokAt_at, at_pos]
+              rw [hpk2]
+              rw [show s.pos + (pr Gen.INDEX l).length + 1 + (pr (Gen.LOWEST + 1) i).length + 1
+                    = s.pos + ((pr Gen.INDEX l).length + 1 + (pr (Gen.LOWEST + 1) i).length + 1) by omega]
+              simpa using hedge.1
+            · show OK (infixLoop (g + 1) q _) (s.at _) Q
+              have := K (g + 1) (by rw [rem_at]; simp only [C] at hf1 ⊢; omega)
+              simp only [at_pos]
+              rw [hpk2]
+              rw [show s.pos + ((pr Gen.INDEX l).length + 1 + (pr (Gen.LOWEST + 1) i).length + 1) - 1
+                    = s.pos + (pr Gen.INDEX l).length + 1 + (pr (Gen.LOWEST + 1) i).length by omega] at this
+              exact this
+    · -- edge for l: the next token is `[`
+      rw [hatlb]
+      exact edge_post l _ _ hpost (by rw [hlb]; decide) (by rw [hlb]; decide)
+
 /-- THEOREM C (Pratt round trip on the parser model). Any expression tree over atoms and binary operators,
     printed with the minimal parentheses that precedence and LEFT associativity require and followed by any
     token that does not bind tighter, is parsed back to exactly that tree: the cursor ends on the
@@ -425,11 +568,12 @@ theorem parse_print (e : PE) (s : PS) (f : Nat) (hwf : e.WF) (eo : EofOK s)
     (hat : At s s.pos (pr (Gen.LOWEST + 1) e))
     (hnext : precOf (tokAt s (s.pos + (pr (Gen.LOWEST + 1) e).length)).type = Gen.LOWEST)
     (hna : (tokAt s (s.pos + (pr (Gen.LOWEST + 1) e).length)).type ≠ .ASSIGN)
+    (hnd : (tokAt s (s.pos + (pr (Gen.LOWEST + 1) e).length)).type ≠ .DOT)
     (hf : 14 + C * rem s ≤ f) :
     parseExpression f Gen.LOWEST s = .ok (some e.toExpr, s.at (s.pos + (pr (Gen.LOWEST + 1) e).length - 1)) := by
   have := main e Gen.LOWEST (Gen.LOWEST + 1) s f
-    (fun r s' => r = some e.toExpr ∧ s' = s.at (s.pos + (pr (Gen.LOWEST + 1) e).length - 1)) hwf (by omega) eo hat
-    (edge_of_le e _ Gen.LOWEST _ hwf (by decide) (by rw [hnext]; exact Nat.le_refl _) hna (fun o _ _ _ _ _ hnp => by omega)) hf
+    (fun r s' => r = some e.toExpr ∧ s' = s.at (s.pos + (pr (Gen.LOWEST + 1) e).length - 1)) hwf (by omega) (by decide) eo hat
+    (edge_of_le e _ Gen.LOWEST _ hwf (by decide) (by rw [hnext]; exact Nat.le_refl _) hna hnd (fun o _ _ _ _ _ hnp => by omega)) hf
     (by
       intro f1 hf1
       rw [rem_at] at hf1
